@@ -64,6 +64,74 @@ fn c09_enforce(dc: u32, credit: u32, count: u32) -> Option<String> {
     None
 }
 
+// ---- bounded exhaustive agreement runs for contracts that enter the Verus units as ASSUMED (iterator-adapter code outside the subset) ----
+/// oracle: a new run starts at i+1 wherever ids[i+1] is not ids[i]+1 (or the per-delivery settle mode changes)
+fn cci_oracle(ids: &[u32], modes: Option<&[Option<bool>]>) -> Vec<usize> {
+    let mut r = Vec::new();
+    for i in 0..ids.len().saturating_sub(1) {
+        let consecutive = ids[i + 1].wrapping_sub(ids[i]) == 1 && ids[i + 1] > ids[i];
+        let same_mode = modes.map(|m| m[i] == m[i + 1]).unwrap_or(true);
+        if !(consecutive && same_mode) { r.push(i + 1); }
+    }
+    r
+}
+/// every ascending sequence of length <= 6 over a small id alphabet (the call sites sort / iterate ascending), every mode assignment
+fn cci_all(receiver: bool, tried: &mut u64) -> Option<String> {
+    const IDS: [u32; 8] = [0, 1, 2, 3, 5, 6, 0xFFFF_FFFE, 0xFFFF_FFFF];
+    for len in 0..=6usize {
+        let mut idx = vec![0usize; len];
+        loop {
+            let ids: Vec<u32> = idx.iter().map(|&k| IDS[k]).collect();
+            if ids.windows(2).all(|w| w[0] <= w[1]) {
+                if receiver {
+                    let nm = 3usize.pow(len as u32);
+                    for code in 0..nm {
+                        let mut c = code;
+                        let modes: Vec<Option<bool>> = (0..len).map(|_| { let d = c % 3; c /= 3; match d { 0 => None, 1 => Some(false), _ => Some(true) } }).collect();
+                        *tried += 1;
+                        let infos: Vec<(u32, Option<bool>)> = ids.iter().cloned().zip(modes.iter().cloned()).collect();
+                        let got = f::receiver_consecutive_chunk_indices(&infos);
+                        let want = cci_oracle(&ids, Some(&modes));
+                        if got != want { return Some(format!("receiver_link::consecutive_chunk_indices {infos:x?} => got {got:?} want {want:?}")); }
+                    }
+                } else {
+                    *tried += 1;
+                    let got = f::session_consecutive_chunk_indices(&ids);
+                    let want = cci_oracle(&ids, None);
+                    if got != want { return Some(format!("session::consecutive_chunk_indices {ids:x?} => got {got:?} want {want:?}")); }
+                }
+            }
+            // next tuple
+            let mut k = 0;
+            while k < len { idx[k] += 1; if idx[k] < IDS.len() { break; } idx[k] = 0; k += 1; }
+            if k == len { break; }
+        }
+    }
+    None
+}
+/// section counter: number of 3-byte section headers (00 53 7x / 00 80 .. 7x is not scanned here) and the distance from the last one to the end;
+/// the units only assume the bounds, the oracle checks the exact meaning
+fn sections_all(tried: &mut u64) -> Option<String> {
+    const A: [u8; 7] = [0x00, 0x53, 0x70, 0x75, 0x78, 0x80, 0x01];
+    for len in 0..=7usize {
+        let mut idx = vec![0usize; len];
+        loop {
+            let b: Vec<u8> = idx.iter().map(|&k| A[k]).collect();
+            *tried += 1;
+            let (n, off) = f::count_number_of_sections_and_offset(&b);
+            if n as usize > b.len() || off as usize > b.len() { return Some(format!("count_number_of_sections_and_offset {b:02x?} => ({n}, {off}) exceeds the input length {}", b.len())); }
+            let mut want_n = 0u32; let mut last = 0usize;
+            for i in 0..b.len().saturating_sub(2) { if b[i] == 0x00 && b[i + 1] == 0x53 && (0x70..=0x78).contains(&b[i + 2]) { want_n += 1; last = i; } }
+            let want_off = (b.len() - last) as u64;
+            if b.iter().all(|x| *x != 0x80) && (n, off) != (want_n, want_off) { return Some(format!("count_number_of_sections_and_offset {b:02x?} => got ({n}, {off}) want ({want_n}, {want_off})")); }
+            let mut k = 0;
+            while k < len { idx[k] += 1; if idx[k] < A.len() { break; } idx[k] = 0; k += 1; }
+            if k == len { break; }
+        }
+    }
+    None
+}
+
 fn main() {
     let args: Vec<String> = std::env::args().collect();
     if args.len() < 2 { eprintln!("usage: verif-falsify <family> [seed]"); std::process::exit(2); }
@@ -100,6 +168,9 @@ fn main() {
             } } }
             while found.is_none() && tried < 400_000 { tried += 1; found = c09_enforce(rng.next(), rng.next(), rng.next() % 4); }
         }
+        "C02.cci-session" => { found = cci_all(false, &mut tried); }
+        "C02.cci-receiver" => { found = cci_all(true, &mut tried); }
+        "C10.sections" => { found = sections_all(&mut tried); }
         _ => { println!("FALSIFY unknown-family"); std::process::exit(2); }
     }
     match found {
